@@ -3,7 +3,7 @@ objects (Sequence.transpose and Bar.transpose); TLC judges every observation (Tr
 import json
 
 from harness import core, project as P
-from harness.common import pmap, build, via
+from harness.common import pmap, build, via, doubled
 
 core.import_scoda()
 from scoda.elements.bar import Bar  # noqa: E402
@@ -20,7 +20,8 @@ def kname(k):
 
 def execute(case):
     idx, kind, score, i, key = case
-    seq = build(score, via(idx))
+    # every fifth sequence case: the score played twice by concatenating one object with itself (shared Message objects)
+    seq = doubled(score, via(idx)) if (kind == "seq" and idx % 5 == 4) else build(score, via(idx))
     line = {"kind": kind, "i": i, "kin": "", "kout": "", "flag": False,
             "back": {"done": False, "rel": [], "flag": False}, "case": {"kind": kind, "score": score, "i": i, "key": key}}
     try:
